@@ -17,6 +17,24 @@ CHECKS = {
    text="Every string up to length 5 (quick) / 6 (thorough) over a 24-symbol alphabet chosen to hit every tokenizer special case is enumerated completely; random lexeme sequences (one lexeme per token kind plus fusing and unterminated forms, odd Unicode) and mutated shipped sources extend it to long inputs. For each text the token tiling, the concatenation round-trip, the preparser's exactly-once attachment of trivia and the CST's leaf sequence and widths are checked exactly. Complete below the length bound for that alphabet, sampled above.",
    note="Trusted: the harness's own walk of the green tree and its definition of 'neighbouring token' (the two non-trivia tokens around a trivia run). One open known finding (header trivia dropped) is tolerated in search and pinned by replay.",
    design="2.C13"),
+ "C01": dict(
+   category="exploration",
+   technique="differential testing VM vs WASM over type-directed generated programs and mutated shipped sources, with tape shrinking",
+   text="Thousands (quick) / >100k (thorough) of generated core-language programs and mutated shipped sources are compiled on both backends and driven sample by sample through the DspRuntime protocol with generated input streams; accept/reject, channel counts and every output word are compared bitwise. Sampled exploration of an infinite program space; sixteen recorded findings restrict the generator (each switch is listed in evidence) and are pinned by replays.",
+   note="Trusted: the harness drives both runtimes through the same public DspRuntime calls the audio drivers use. The searched space excludes the program shapes of the open known findings; a failure whose shrunk program still contains a tuple/record is attributed to the umbrella finding C01-wasm-aggregates.",
+   design="2.C01"),
+ "C04": dict(
+   category="exploration",
+   technique="exhaustive token-sequence and nesting enumeration + random/mutated text fuzzing with crash-isolating workers; spans checked against the text",
+   text="Every sequence of up to 3 (quick) / 4 (thorough) tokens over one lexeme per token kind and every nesting construct at every depth up to the stated bound of 64 is enumerated; random soups, longer sequences and mutated shipped sources extend it. Each text runs the language server's and the CLI's entry points on an 8 MiB thread; panics are caught with their site, stack overflows and hangs are recovered from the worker journal, and every diagnostic span is checked against the text.",
+   note="Texts without diagnostics are not pushed through code generation here (C03's subject). Termination is a 20 s bound confirmed twice. Two open known findings (placeholder span 0..1, one unreachable!() site) are tolerated by signature and pinned by replay.",
+   design="2.C04"),
+ "C20": dict(
+   category="exploration",
+   technique="round-trip property testing of generated values/types (plus exhaustive small values) against a harness-side model; decoder robustness on mutated bytes",
+   text="Generated Value and Type trees (all variants, edge floats, odd strings, empty aggregates, non-transportable nodes at any depth), all values of depth <= 2 over 8 leaves exhaustively, macro argument lists, and corrupted byte strings are pushed through the FFI encoders/decoders; results are compared with a harness-side model of the value, refusals are demanded where the property demands them.",
+   note="The Type serde impls are exercised through serde_json with positional transcoding rather than bincode (variant indices are not observed on that leg); TypeNodeId/Value go through the real bincode path. One open known finding (ErrorV decodes to Unit).",
+   design="2.C20"),
 }
 
 NOT_YET = {
